@@ -93,6 +93,11 @@ def gen_case(rng, tier, pid, n):
     espell = rng.choice([("e-",), ("E",), ("e-", "E")])
     indexed = rng.random() < 0.7
     want_cool = n > 1 and rng.random() < (0.4 if pid in ("C01", "C02", "C03") else 0.1)
+    krome2_case = pid == "C01" and n == 8          # one network read from two KROME files, always (see below)
+    if krome2_case:
+        want_cool, use_ice = False, False
+        pool = netgen.gas_pool()
+        nsp, nre = max(nsp, 6), max(nre, 12)
     forced = []
     if want_cool:
         byname = {s.name: s for s in pool}
@@ -111,7 +116,9 @@ def gen_case(rng, tier, pid, n):
         forced = forced + [netgen.grain(0), netgen.grain(-1)]
         nsp, nre = max(nsp, 5), max(nre, 8)
     config = "default"
-    if pid in ("C01", "C02", "C03", "C13") and n > 1 and rng.random() < 0.2:
+    if krome2_case:
+        pass
+    elif pid in ("C01", "C02", "C03", "C13") and n > 1 and rng.random() < 0.2:
         config = "third-body-species"
         forced = forced + [netgen.mk([("M", 1)])]
     elif pid in ("C04", "C01") and n == 5:
@@ -221,12 +228,28 @@ def gen_case(rng, tier, pid, n):
             reacs = ok_
             used = {s.key for r in reacs for s in r.re + r.pr}
             required = [s for s in required if s.kind in ("gas", "electron")]
+    if krome2_case:
+        mods = []
+        # two KROME files in one network: the first ends under a column layout of its own (two reactants, five products), the second
+        # has no @format line - its columns are the default layout again - and holds a three-body reaction
+        ok_ = [r for r in reacs if not r.pseudo_re and not r.pseudo_pr and len(r.re) <= 3 and len(r.pr) <= 4 and r.rtype == 100
+               and all(s.kind in ("gas", "electron") for s in r.re + r.pr)]
+        gas_ = [s for s in sub if s.kind == "gas"]
+        if len(ok_) >= 2 and len(gas_) >= 2:
+            import copy as _copy
+            three = _copy.copy(ok_[0])
+            three.re, three.pr, three.idx = [gas_[0], gas_[0], gas_[1]], [gas_[1], gas_[0]], max(r.idx for r in ok_) + 1
+            reacs = ok_ + [three]
+            used = {s.key for r in reacs for s in r.re + r.pr}
+            required = [s for s in required if s.kind in ("gas", "electron")]
+            entry = "krome2"
     if pid == "C04" and reacs and not cooling and config == "default" and (n in (7, 8, 9) or rng.random() < 0.15) \
             and all(not r.pseudo_re and not r.pseudo_pr and len(r.re) <= 3 and len(r.pr) <= 5 and r.rtype == 100 for r in reacs) \
             and all(s.kind in ("gas", "electron") for r in reacs for s in r.re + r.pr):
         entry = "krome"
-        krome_header = rng.choice(["@format:r,r,r,p,p,p,p,p,tmin,tmax,rate", "@format:R,R,R,P,P,P,P,P,Tmin,Tmax,rate",
-                                   "@format:r,r,r,p,p,p,p,p,Tmin,Tmax,rate", "@format:tmin,tmax,r,r,r,p,p,p,p,p,rate"])
+        headers = ["@format:r,r,r,p,p,p,p,p,tmin,tmax,rate", "@format:tmin,tmax,r,r,r,p,p,p,p,p,rate",
+                   "@format:r,r,r,p,p,p,p,p,Tmin,Tmax,rate", "@format:R,R,R,P,P,P,P,P,Tmin,Tmax,rate"]
+        krome_header = headers[(n - 7) % 4] if n in (7, 8, 9) else rng.choice(headers)     # (the forced cases walk through the spellings)
     return {"species": sub, "reacs": reacs, "required": required, "entry": entry, "cooling": cooling, "krome_header": krome_header,
             "mods": mods, "ratemod": ratemod, "indexed": indexed, "config": config, "heating": heating}
 
@@ -376,6 +399,16 @@ def build_network(case, scratch: Path, with_mods=True, with_ratemod=True):
                 rows.append(",".join(cell[k.lower()]() for k in hdr.split(":", 1)[1].split(",")))
             f.write_text(hdr + "\n" + "\n".join(rows) + "\n")
             files, fmts = [f], ["krome"]
+        elif entry == "krome2":
+            fa, fb = scratch / "a.krome", scratch / "b.krome"
+            row = lambda r, nr, np_: ",".join([str(r.idx)] + [s.name for s in r.re] + [""] * (nr - len(r.re)) + [s.name for s in r.pr]
+                                              + [""] * (np_ - len(r.pr)) + ["NONE", "NONE", f"{r.alpha:.3e}".replace("e", "d")])
+            first = [r for r in reacs if len(r.re) <= 2]
+            second = [r for r in reacs if len(r.re) > 2]
+            fa.write_text("@format:idx,R,R,P,P,P,P,P,Tmin,Tmax,rate\n" + "\n".join(row(r, 2, 5) for r in first) + "\n")
+            fb.write_text("\n".join(row(r, 3, 4) for r in second) + "\n")
+            case["reacs"][:] = first + second          # (the order in which the network holds them)
+            files, fmts = [fa, fb], ["krome", "krome"]
         elif entry == "umist":
             # alternating runs of lines that fit the RATE12 columns (UMIST files) and lines that do not (native files), in order
             files, fmts, run, fit = [], [], [], None
@@ -690,7 +723,8 @@ def run(pid: str, argv):
         if req is not None:
             requests.append(req)
             pending.append((case, rds))
-        if pid == "C03" and case["reacs"] and case["config"] == "default" and n in (2, 5, 9, 14):
+        # (C01 / C04: a loader kept by a script attaches every term to the species' slots of the network as it is *now*)
+        if case["reacs"] and case["config"] == "default" and ((pid == "C03" and n in (2, 5, 9, 14)) or (pid in ("C01", "C04") and n in (2, 9))):
             reused_loader_check(chk, case, net, n)
         if pid == "C13" and case["reacs"] and (n % 3 == 2 or n < 4):
             reassigned_modifiers_check(chk, case, net, n)
@@ -709,6 +743,8 @@ def run(pid: str, argv):
                                     "idxs": [r.idxfromfile for r in net.reactions],
                                     "stmts": [[c, r] for _, r, c in base]})
                 ov_pending.append((case, b, got))
+    if pid == "C13":
+        ice_modifier_prefix_check(chk)
     if pid == "C04":
         slot_identity_check(chk)
         cross_network_elements_check(chk)
@@ -1160,9 +1196,9 @@ def compiled_jac_check(chk, jobs):
         if not ok:
             return job, "build", err, None
         y = [round(0.5 + 0.13 * ((5 * i + 2) % 17), 3) for i in range(rd.neqns)]
-        r = subprocess.run([str(exe)], input="300.0\n" + " ".join(repr(v) for v in y) + "\n", capture_output=True, text=True, timeout=300)
+        r = subprocess.run([str(exe)], input="300.0\n" + " ".join(repr(v) for v in y) + "\n3.0\n", capture_output=True, text=True, timeout=300)
         lines = r.stdout.strip().split("\n")
-        if r.returncode != 0 or len(lines) != 3:
+        if r.returncode != 0 or len(lines) != 5:
             return job, "run", f"rc={r.returncode} {r.stderr[-300:]}", None
         return job, None, lines, y
 
@@ -1174,6 +1210,7 @@ def compiled_jac_check(chk, jobs):
                 chk.corr_break("compiled-jac", summ, None, f"{stage}: {out[-500:]}")
                 continue
             k = [0.0 if x in ("nan", "-nan") else float(x) for x in out[0].split()]
+            k2 = [0.0 if x in ("nan", "-nan") else float(x) for x in out[3].split()]
             inv = {}
             for name, slot in rd.idx.items():
                 inv.setdefault(slot, name)
@@ -1184,12 +1221,17 @@ def compiled_jac_check(chk, jobs):
                 def __missing__(self, key):
                     raise KeyError(key)
             try:
-                want = {rc: float(ceval.ev(cparse.parse_expr(t), Env(env))) for rc, t in ents.items()}
+                want1 = {rc: float(ceval.ev(cparse.parse_expr(t), Env(env))) for rc, t in ents.items()}
+                env.update({f"k[{i}]": v for i, v in enumerate(k2)})       # third call: 3 K, below every lower bound
+                want3 = {rc: float(ceval.ev(cparse.parse_expr(t), Env(env))) for rc, t in ents.items()}
             except (KeyError, cparse.CParseError, ValueError, ZeroDivisionError, OverflowError):
                 chk.hist["compiled-jac:not-evaluable"] += 1
                 continue
+            if k2 != k:
+                chk.hist["compiled-jac:rates-change-between-calls"] += 1
             n = rd.neqns
-            for call, line in enumerate(out[1:], 1):
+            for call, line in ((1, out[1]), (2, out[2]), (3, out[4])):
+                want = want3 if call == 3 else want1
                 vals = [float(x) for x in line.split()]
                 if len(vals) != n * n:
                     chk.corr_break("compiled-jac", summ, None, f"{len(vals)} values for a {n}x{n} matrix")
@@ -1205,7 +1247,7 @@ def compiled_jac_check(chk, jobs):
                     if bad:
                         break
                 if bad:
-                    chk.violation({"kind": "compiled-jac-differs", "backend": b, "call": "first" if call == 1 else "later",
+                    chk.violation({"kind": "compiled-jac-differs", "backend": b, "call": "first" if call == 1 else ("later" if call == 2 else "other-temperature"),
                                    "omitted_entry": (bad[0], bad[1]) not in want},
                                   f"compiled {b} Jacobian, call {call} on the same matrix object: entry ({bad[0]},{bad[1]}) "
                                   f"[{inv.get(bad[0])}, {inv.get(bad[1])}] is {bad[2]!r}; the emitted entry "
@@ -1297,6 +1339,57 @@ def cross_network_elements_check(chk):
                       f"(where `HE` is H + E) renders {diff[:5]} differently from the same network built alone: its species carry the other "
                       f"project's compositions, so GetElementAbund is not the count-weighted sum over its own species",
                       input={"file": lines.split(chr(10))[:4], "first_network_elements": "default list", "second_network_elements": ["E", "H", "HE"]})
+
+
+def ice_modifier_prefix_check(chk):
+    """A project whose ices are spelled with its own surface prefix (`G`, as the Leeds database and the bundled ism example do) and an
+    ODE modifier that names an ice - as target and as dependency: the modifier adds exactly its term to its target, nothing else
+    changes, nothing is refused."""
+    from naunet.network import Network
+    from naunet.reactions import Reaction
+    from naunet.reactiontype import ReactionType as RT
+    from .poly import Poly
+    for prefix in ("G", "#"):
+        ice = prefix + "CO"
+        reset_species_state()
+        from .c17 import native
+        src = chk.scratch / f"ice-modifier-{'G' if prefix == 'G' else 'hash'}.naunet"
+        fmt_ = "leeds" if prefix == "G" else "naunet"      # (the native reader knows the default prefix only: finding F24)
+        if fmt_ == "leeds":
+            src.write_text("\n".join([netgen.leeds_line(1, ["CO"], [ice]), netgen.leeds_line(2, [ice], ["CO"], a=2e-10),
+                                      netgen.leeds_line(3, ["H", "H"], ["H2"], a=3e-10)]) + "\n")
+        else:
+            src.write_text("\n".join([native(1, ["CO"], [ice]), native(2, [ice], ["CO"], a=2e-10), native(3, ["H", "H"], ["H2"], a=3e-10)]) + "\n")
+        kws = {"surface_prefix": prefix}
+        mod = {"CO": {"factors": ["kdes"], "reactants": [[ice]]}, ice: {"factors": ["-kdes"], "reactants": [[ice]]}}
+        out = {}
+        try:
+            for tag, om in (("plain", None), ("modified", mod)):
+                with silenced():
+                    reset_species_state()
+                    net = Network(filelist=[str(src)], fileformats=[fmt_], species_kwargs=dict(kws), ode_modifier=om)
+                    d = chk.scratch / f"ice-modifier-{'G' if prefix == 'G' else 'hash'}-{tag}"
+                    render(net, "dense", d)
+                rd = Rendered(d, "dense")
+                inv = {v: k for k, v in rd.idx.items()}
+                out[tag] = {inv[slot]: p for slot, p in polys_of_fex(rd).items() if slot in inv}
+        except Exception as e:
+            chk.violation({"kind": "ice-modifier-refused", "prefix": prefix, "error": type(e).__name__},
+                          f"a network with surface prefix {prefix!r} and an ODE modifier on the ice {ice} cannot be rendered: "
+                          f"{type(e).__name__}: {str(e)[:160]}", input={"ode_modifier": mod, "species_kwargs": kws})
+            continue
+        chk.count(("ice-modifier", prefix), nontrivial=True)
+        chk.hist["ice-modifier-prefix"] += 1
+        alias = "GCOI"
+        term = Poly.atom("kdes") * Poly.atom(f"y[IDX_{alias}]")
+        want = dict(out["plain"])
+        want["IDX_COI"] = want["IDX_COI"] + term
+        want[f"IDX_{alias}"] = want[f"IDX_{alias}"] - term
+        if out["modified"] != want:
+            bad = sorted(k for k in want if out["modified"].get(k) != want[k])
+            chk.violation({"kind": "ice-modifier-effect", "prefix": prefix},
+                          f"with surface prefix {prefix!r} the ODE modifier on {ice} does not add exactly its term: equations {bad} differ",
+                          input={"ode_modifier": mod})
 
 
 def slot_identity_check(chk):
